@@ -142,3 +142,10 @@ impl<'c, W, R, T> RootEvaluationScope<'c, W, R, T> {
 }
 
 pub type RuntimeResult<T> = Result<T, RuntimeViolation>;
+
+#[cfg(xray_verif)]
+impl<'c, W, R, T> RootEvaluationScope<'c, W, R, T> {
+    pub(crate) fn verif_parts(&self) -> (&RuntimeScope<'static, W, R, T>, &RTCell<W, R, T>) {
+        (self.scope.as_ref(), &self.runtime)
+    }
+}
